@@ -35,6 +35,8 @@ pub mod sampling_adjustment;
 pub mod sql;
 pub mod synthetic_data;
 pub mod types;
+#[cfg(feature = "qrlew_verif")]
+pub mod verif;
 pub mod visitor;
 
 pub use builder::{Ready, With, WithContext, WithIterator, WithoutContext};
